@@ -410,21 +410,15 @@ impl<T: SharedResource + Add<Output = T> + Sub<Output = T>> SharedResourceState<
     fn prevent_resource_consumption(&self, route_ctx: &mut RouteContext) {
         let mut empty_resources = vec![None; route_ctx.route().tour.total()];
 
-        route_ctx.state().get_reload_intervals().cloned().unwrap_or_default().into_iter().for_each(
-            |(start_idx, end_idx)| {
-                let activity = get_activity_by_idx(route_ctx.route(), start_idx);
-                let has_resource_demand = (self.resource_capacity_fn)(activity).is_some_and(|(_, _)| {
-                    (start_idx..=end_idx)
-                        .filter_map(|idx| route_ctx.route().tour.get(idx))
-                        .filter_map(|activity| activity.job.as_ref())
-                        .any(|job| (self.resource_demand_fn)(job).is_some())
-                });
+        route_ctx.state().get_reload_intervals().cloned().unwrap_or_default().into_iter().for_each(|(start_idx, _)| {
+            let activity = get_activity_by_idx(route_ctx.route(), start_idx);
 
-                if has_resource_demand {
-                    empty_resources[start_idx] = Some(T::default());
-                }
-            },
-        );
+            // NOTE: an interval which has no job with resource demand at the moment (e.g. its only job has been just
+            // removed from a copy of the route) still draws on the shared resource once such job is inserted
+            if (self.resource_capacity_fn)(activity).is_some() {
+                empty_resources[start_idx] = Some(T::default());
+            }
+        });
 
         route_ctx.state_mut().set_activity_states::<SharedResourceStateKey, _>(empty_resources)
     }
